@@ -468,7 +468,7 @@ class SerialMem(secsgem.common.Connection):
 class SecsIRig:
     """real SecsIProtocol (equipment role); the harness plays the host on the line: ENQ, wait EOT, block, wait ACK"""
 
-    def __init__(self):
+    def __init__(self, t3=45):
         import secsgem.secsi
 
         class S(secsgem.secsi.SecsISettings):
@@ -477,7 +477,7 @@ class SecsIRig:
                 return self_inner.conn
 
         self.secsi = secsgem.secsi
-        self.p = secsgem.secsi.SecsIProtocol(S(port="X", device_type=secsgem.common.DeviceType.EQUIPMENT))
+        self.p = secsgem.secsi.SecsIProtocol(S(port="X", device_type=secsgem.common.DeviceType.EQUIPMENT, t3=t3))
         self.c = self.p._connection
         self.tap = Tap(self.p)
         self.tap.install()
@@ -516,6 +516,29 @@ class SecsIRig:
             self.c.on_data({"source": self.c, "data": bytes(b.encode())})
             ok = ok and self._await(0x06)
         return ok
+
+    def take_outgoing_block(self, limit=2.0):
+        """play the receiver for ONE block the endpoint sends: wait ENQ, answer EOT, read the block, answer ACK; -> decoded block or None"""
+        from secsgem.secsi.message import SecsIBlock
+        end = time.time() + limit
+        buf = b""
+        while time.time() < end and bytes([0x05]) not in buf:
+            buf += self.c.take()
+            time.sleep(0.002)
+        if bytes([0x05]) not in buf:
+            return None
+        buf = buf[buf.index(bytes([0x05])) + 1:]
+        self.c.on_data({"source": self.c, "data": bytes([0x04])})
+        while time.time() < end:
+            buf += self.c.take()
+            if buf and len(buf) >= buf[0] + 3:
+                break
+            time.sleep(0.002)
+        if not buf or len(buf) < buf[0] + 3:
+            return None
+        blk = SecsIBlock.decode(buf[: buf[0] + 3])
+        self.c.on_data({"source": self.c, "data": bytes([0x06 if blk is not None else 0x15])})
+        return blk
 
     quiesce = Rig.quiesce
 
@@ -1483,6 +1506,80 @@ def part_bad_frame_in_the_middle(cx: Ctx):
                 res.disagree("history with a disturbance in the middle vs Model.Txn", {"case": case, "line": line[:1000]}, ans[:400], list(want_m))
 
 
+# ---------------------------------------------------------------------------------------------- (ix) the reply functions 0 (abort) .. 254, both transports
+def part_reply_functions(cx: Ctx):
+    """every reply function reaches the requester: SxF0 (transaction abort), the regular SxF(n+1), F254; on HSMS and on SECS-I.
+    Oracle: the caller of send_and_waitfor_response gets the message with its system bytes within T3, the application does not get it."""
+    res = cx.res
+    functions = [0, 2, 254] if not cx.big else [0, 2, 4, 100, 254]
+    for transport in ("hsms", "secsi"):
+        for fn_reply in functions:
+            rig = Rig(t3=1.0) if transport == "hsms" else SecsIRig(t3=1.0)
+            if not rig.connect():
+                return
+            c0 = rig.p._system_counter
+            out = {}
+
+            def call(out=out, rig=rig):
+                try:
+                    out["r"] = rig.p.send_and_waitfor_response(Fn(1, 1))
+                except BaseException as exc:  # noqa: BLE001
+                    out["exc"] = exc
+
+            t = threading.Thread(target=call, daemon=True)
+            t0 = time.time()
+            t.start()
+            if transport == "hsms":
+                limit = time.time() + 2
+                while time.time() < limit and "sent" not in rig.tap.pc.values():
+                    time.sleep(0.002)
+                wire = rig.c.data_systems()
+                k = wire[0][0] if wire else None
+                if k is not None:
+                    rig.feed(data_msg(k, 1, fn_reply))
+            else:
+                blk = rig.take_outgoing_block()
+                k = None if blk is None else blk.header.system
+                limit = time.time() + 1
+                while time.time() < limit and "sent" not in rig.tap.pc.values():
+                    time.sleep(0.002)
+                if k is not None:
+                    rig.feed(k, 1, fn_reply)
+            if k is None:
+                res.violate("c06-request-hang", "request never reached the wire", {"part": "reply-functions", "transport": transport})
+                continue
+            t.join(3.0)
+            took = time.time() - t0
+            rig.quiesce(limit=1.0)
+            with rig.ev_lock:
+                starts = [(s_, tg) for (kk, s_, tg) in rig.events if kk == "start"]
+            r = out.get("r")
+            case = {"part": "reply-functions", "transport": transport, "request": "S1F1 W", "reply": f"S1F{fn_reply}", "system": k}
+            res.count(("reply-functions", transport, fn_reply), sample=dict(case, returned=show_result(r), application_got=starts) if fn_reply == 0 else None)
+            res.bump("reply_function_to_an_open_request", f"{transport} F{fn_reply}")
+            problems = []
+            if "exc" in out:
+                problems.append(f"send_and_waitfor_response raised {type(out['exc']).__name__}")
+            elif t.is_alive():
+                problems.append("send_and_waitfor_response did not return")
+            elif r is None or r.header.system != k or r.header.function != fn_reply:
+                problems.append(f"the reply S1F{fn_reply} carrying the request's system bytes was not routed to the requester (it got {show_result(r)} after {took:.1f} s)")
+            if (k, 256 + fn_reply) in starts:
+                problems.append(f"the reply S1F{fn_reply} was handed to the application as an unsolicited message")
+            if problems:
+                res.violate("c06-reply-not-routed", "; ".join(problems), case, {"requester": f"{k}:{256 + fn_reply}", "application": []},
+                            {"requester": show_result(r), "application": starts})
+            toks, err = rig.tap.tokens(cx.atomic)
+            if cx.drv.available and toks is not None and not t.is_alive():
+                line, ans = model_run(cx.drv, cx.atomic, cx.patched, c0, max(rig.tap.n_callers, 1), toks)
+                res.traces_validated += 1
+                m = parse_model(ans)
+                want_m = (show_result(r), [f"{a_}:{b_}" for (a_, b_) in starts])
+                got_m = None if m is None else (m["callers"][0][2] if m["callers"] else None, m["delivered"])
+                if got_m != want_m:
+                    res.disagree("reply function 0..254 to an open request vs Model.Txn", {"case": case, "line": line[:800]}, ans[:400], list(want_m))
+
+
 # ---------------------------------------------------------------------------------------------- static tie: the SECS-I routing branch
 def part_static_tie(cx: Ctx):
     """the harness drives HSMS; the SECS-I endpoint shares Protocol.send_and_waitfor_response and has its own copy of the routing branch:
@@ -1582,6 +1679,8 @@ def main():
             part_lost_wakeup(cx)
         if want("bad-frame"):
             part_bad_frame_in_the_middle(cx)
+        if want("reply-functions"):
+            part_reply_functions(cx)
         if replay_classes:
             res.violations = [v for v in res.violations if v["class"] in replay_classes]  # "does the recorded failure still fail"
     except Exception as exc:  # noqa: BLE001
